@@ -1,8 +1,9 @@
 CONSTANTS
+  GuardSlack = 1
   Slack = 8
   BudgetKb = 160
   MustBound = {"then_pool_saturated", "pipeline_serial_p0", "pipeline_serial_p1", "pipeline_serial_p2",
-               "graph_chain_p2", "graph_comb_p0", "graph_comb_p1", "cts_recursive_heavy_p1",
+               "graph_chain_p2", "graph_comb_p1", "cts_recursive_heavy_p1",
                "cts_recursive_light_p1", "ts_recursive_p1", "pool_recursive_p1"}
 SPECIFICATION Spec
 CHECK_DEADLOCK FALSE
